@@ -25,7 +25,7 @@ CONSTANTS
   N, Ts,    \* fresh: group size and the set of thresholds to explore
   Fasts,    \* subset of BOOLEAN: values of Config.FastSync to explore
   MaxF,     \* at most this many faulty parties (also limited by n-t per group)
-  MenuLvl,  \* "full" | "small" | "proto" | "eq" | "fc" (false complaints only: the threshold-boundary menu)
+  MenuLvl,  \* "full" | "small" | "proto" | "eq" | "fc" (false complaints only: the threshold-boundary menu) | "fcp"
   OrdMode,  \* "all" (every permutation per phase) | "two" (asc/desc per phase) | "glob" (asc/desc chosen once)
   Rec,      \* BOOLEAN: record hist (generator) / keep it empty (model checking)
   LeaveFix  \* BOOLEAN: ProcessResponses accepts a leaving (old-only) dealer (finding #10 repaired)
@@ -80,11 +80,13 @@ FaultySets == {S \in SUBSET P : /\ Cnt(S) <= MaxF
 AllG == [j \in Holders |-> "G"]
 DB(f, c, poly, sh, flaw) ==
   [from |-> f, c |-> c, poly |-> poly, sid |-> flaw # "sid", thr |-> flaw # "thr", unk |-> flaw = "unk",
-   sec |-> flaw # "sec", sh |-> sh]
+   sec |-> flaw # "sec", sh |-> sh, auth |-> flaw # "author"]
 HonestDeal(d) == DB(d, 1, 1, AllG, "ok")
 
-RB(f, c, sid, unk, rs) == [from |-> f, c |-> c, sid |-> sid, unk |-> unk, rs |-> rs]
-JB(f, c, sid, unk, js) == [from |-> f, c |-> c, sid |-> sid, unk |-> unk, js |-> js, poly |-> 1]
+\* auth = FALSE: the bundle names an author index that is not in the group (index == n): nobody can attribute it
+\* statuses: "S" success, "C" complaint, "X" a status value outside the enum (neither Success nor Complaint)
+RB(f, c, sid, unk, rs) == [from |-> f, c |-> c, sid |-> sid, unk |-> unk, rs |-> rs, auth |-> TRUE]
+JB(f, c, sid, unk, js) == [from |-> f, c |-> c, sid |-> sid, unk |-> unk, js |-> js, poly |-> 1, auth |-> TRUE]
 JBP(b, pl) == [b EXCEPT !.poly = pl]   \* the polynomial the revealed shares are taken from
 
 ---------------------------------------------------------------------------
@@ -106,7 +108,8 @@ AfterDeals(h, s) ==
        ELSE [s EXCEPT !.ph = "deal"]
 
 PDStep(h, acc, b) ==
-  IF CanIssue(h) /\ b.from = h THEN acc
+  IF ~b.auth THEN acc                                     \* dealer index not in OldNodes: skipped
+  ELSE IF CanIssue(h) /\ b.from = h THEN acc
   ELSE IF ~b.sid \/ ~b.thr THEN [acc EXCEPT !.ev = @ \cup {b.from}]
   ELSE IF b.from \in acc.seen THEN [acc EXCEPT !.ev = @ \cup {b.from}]
   ELSE LET good == b.sh[h] = "G" /\ (Resh => b.sec)
@@ -126,7 +129,7 @@ ProcessDeals(h, s0, bs) ==
   IN [s |-> [s0 EXCEPT !.ph = "resp", !.st = st1, !.ev = acc.ev, !.vs = acc.vs, !.ap = acc.ap],
       resp |-> resp, has |-> rd # {}]
 
-AllTrue(st, d)      == \A j \in Holders : st[d][j] = "S"
+AllTrue(st, d)      == \A j \in Holders : st[d][j] # "C"     \* status.go: "no complaint", not "all success"
 CompleteSuccess(st) == \A d \in Dealers : AllTrue(st, d)
 
 FirstK(S, k) == {d \in S : Cnt({e \in S : SR.oi[e] < SR.oi[d]}) < k}
@@ -149,10 +152,11 @@ ComputeResult(h, s) ==
                   ELSE [k |-> "res", qual |-> Q, used |-> U, polys |-> [d \in U |-> s.ap[d]], cons |-> TRUE]
 
 PRStep(h, acc, b) ==
-  IF CanIssue(h) /\ (LeaveFix => CanReceive(h)) /\ SR.ni[b.from] = NIdx(h) THEN acc   \* "our own response"
+  IF ~b.auth THEN acc                                     \* share index not in NewNodes: skipped
+  ELSE IF CanIssue(h) /\ (LeaveFix => CanReceive(h)) /\ SR.ni[b.from] = NIdx(h) THEN acc   \* "our own response"
   ELSE IF ~b.sid THEN [acc EXCEPT !.eh = @ \cup {b.from}]
   ELSE LET viol == b.unk \/ (~Fast /\ \E d \in DOMAIN b.rs : b.rs[d] = "S")
-           ok   == {d \in DOMAIN b.rs : Fast \/ b.rs[d] = "C"}
+           ok   == {d \in DOMAIN b.rs : Fast \/ b.rs[d] # "S"}
        IN [acc EXCEPT
              !.st = [d \in Dealers |-> IF d \in ok THEN [acc.st[d] EXCEPT ![b.from] = b.rs[d]] ELSE acc.st[d]],
              !.eh = IF viol THEN @ \cup {b.from} ELSE @,
@@ -184,7 +188,7 @@ ProcessResponses(h, s0, bs) ==
      ELSE
      LET ev1 == s1.ev \cup {d \in Dealers : Cnt({j \in Holders : acc.st[d][j] = "C"}) >= NT}
          js  == IF CanIssue(h) THEN {j \in Holders : acc.st[h][j] = "C"} ELSE {}
-         st2 == IF CanIssue(h) THEN [acc.st EXCEPT ![h] = [j \in Holders |-> "S"]] ELSE acc.st
+         st2 == IF CanIssue(h) THEN [acc.st EXCEPT ![h] = [j \in Holders |-> IF @[j] = "C" THEN "S" ELSE @[j]]] ELSE acc.st
          s2  == [s1 EXCEPT !.ph = "just", !.ev = ev1, !.st = st2]
      IN IF EvictedErr(h, s2, "resp")
         THEN [s |-> [s2 EXCEPT !.out = [k |-> "err", e |-> "evicted"]], just |-> {}, has |-> FALSE]
@@ -193,7 +197,8 @@ ProcessResponses(h, s0, bs) ==
 SecOK(d) == d \notin badsec
 
 PJStep(h, acc, b) ==
-  IF b.from \in acc.seen THEN [acc EXCEPT !.ev = @ \cup {b.from}]
+  IF ~b.auth THEN acc                                     \* dealer index not in OldNodes: skipped
+  ELSE IF b.from \in acc.seen THEN [acc EXCEPT !.ev = @ \cup {b.from}]
   ELSE IF CanIssue(h) /\ b.from = h THEN acc
   ELSE IF b.from \in acc.ev THEN acc
   ELSE IF ~b.sid THEN [acc EXCEPT !.ev = @ \cup {b.from}]
@@ -234,12 +239,14 @@ ShPats ==
 DealMenu(f) ==
   IF f \notin Dealers THEN {<<>>}
   ELSE IF MenuLvl = "fc" THEN {<<>>, <<DB(f, 1, 1, AllG, "ok")>>}
+  ELSE IF MenuLvl = "fcp" THEN {<<DB(f, 1, 1, AllG, "ok")>>}
+                               \cup {<<DB(f, 1, 1, [j \in Holders |-> IF j = x THEN "B" ELSE "G"], "ok")>> : x \in HH}
   ELSE IF MenuLvl = "eq" THEN {<<DB(f, 1, 1, AllG, "ok")>>,
                                <<DB(f, 1, 1, AllG, "ok"), DB(f, 2, 1, AllG, "ok")>>,
                                <<DB(f, 1, 1, AllG, "ok"), DB(f, 2, 2, AllG, "ok")>>}
   ELSE {<<>>}
        \cup {<<DB(f, 1, 1, sh, "ok")>> : sh \in ShPats}
-       \cup {<<DB(f, 1, 1, AllG, k)>> : k \in (IF MenuLvl = "proto" THEN {"sid"} ELSE {"sid", "thr", "unk"})
+       \cup {<<DB(f, 1, 1, AllG, k)>> : k \in (IF MenuLvl = "proto" THEN {"sid"} ELSE {"sid", "thr", "unk", "author"})
                                                 \cup (IF Resh THEN {"sec"} ELSE {})}
        \cup {<<DB(f, 1, 1, AllG, "ok"), DB(f, 2, 1, AllG, "ok")>>,      \* duplicate
              <<DB(f, 1, 1, AllG, "ok"), DB(f, 2, 2, AllG, "ok")>>,      \* conflicting
@@ -248,7 +255,8 @@ DealMenu(f) ==
 RespBundle(f, c, cs, flaw) ==
   LET dom == IF flaw = "partial" THEN cs
              ELSE IF Fast \/ flaw = "succ" THEN Dealers ELSE cs
-  IN RB(f, c, flaw # "sid", flaw = "unk", [d \in dom |-> IF d \in cs THEN "C" ELSE "S"])
+  IN [RB(f, c, flaw # "sid", flaw = "unk", [d \in dom |-> IF d \in cs THEN (IF flaw = "oor" THEN "X" ELSE "C") ELSE "S"])
+        EXCEPT !.auth = flaw # "author"]
 
 RespMenu(f) ==
   IF f \notin Holders THEN {<<>>}
@@ -257,8 +265,10 @@ RespMenu(f) ==
            CS == IF MenuLvl = "full" THEN SUBSET O
                  ELSE IF MenuLvl = "proto" THEN {{}, d0}
                  ELSE {{}} \cup {{d} : d \in O} \cup {O}
-           FL == IF MenuLvl = "proto" THEN {} ELSE {"sid", "unk"} \cup (IF Fast THEN {"partial"} ELSE {"succ"})
+           FL == IF MenuLvl = "proto" THEN {} ELSE {"sid", "unk", "oor", "author"} \cup (IF Fast THEN {"partial"} ELSE {"succ"})
        IN IF MenuLvl = "fc" THEN {<<>>} \cup {<<RespBundle(f, 1, cs, "ok")>> : cs \in {{}} \cup {{d} : d \in O} \cup {O}}
+          ELSE
+          IF MenuLvl = "fcp" THEN {<<>>, <<RespBundle(f, 1, O, "ok")>>}
           ELSE
           IF MenuLvl = "eq" THEN {<<RespBundle(f, 1, {}, "ok")>>, <<RespBundle(f, 1, d0, "ok")>>,
                                    <<RespBundle(f, 1, d0, "ok"), RespBundle(f, 2, {}, "ok")>>}
@@ -279,14 +289,15 @@ JustMenu1(f) ==
            g1 == IF C = {} THEN g ELSE [j \in {MinOf(C)} |-> "good"]
            gb == IF C = {} THEN g ELSE [j \in C |-> IF j = MinOf(C) THEN "good" ELSE "bad"]
            ga == [j \in Holders |-> "good"]
-       IN IF MenuLvl = "fc" THEN {<<>>, <<JB(f, 1, TRUE, FALSE, g)>>}
+       IN IF MenuLvl \in {"fc", "fcp"} THEN {<<>>, <<JB(f, 1, TRUE, FALSE, g)>>}
           ELSE
           IF MenuLvl = "eq" THEN {<<>>, <<JB(f, 1, TRUE, FALSE, g)>>,
                                    <<JB(f, 1, TRUE, FALSE, g), JB(f, 2, TRUE, FALSE, b)>>}
           ELSE
           {<<>>}
           \cup {<<JB(f, 1, TRUE, FALSE, x)>> : x \in (IF MenuLvl = "proto" THEN {g, b} ELSE {g, b, g1, gb, ga})}
-          \cup (IF MenuLvl = "proto" THEN {} ELSE {<<JB(f, 1, FALSE, FALSE, g)>>, <<JB(f, 1, TRUE, TRUE, g)>>})
+          \cup (IF MenuLvl = "proto" THEN {} ELSE {<<JB(f, 1, FALSE, FALSE, g)>>, <<JB(f, 1, TRUE, TRUE, g)>>,
+                                                   <<[JB(f, 1, TRUE, FALSE, g) EXCEPT !.auth = FALSE]>>})
           \cup {
                 <<JB(f, 1, TRUE, FALSE, g), JB(f, 2, TRUE, FALSE, g)>>,     \* duplicate
                 <<JB(f, 1, TRUE, FALSE, g), JB(f, 2, TRUE, FALSE, b)>>}     \* conflicting
@@ -343,9 +354,9 @@ ChooseR == Choose("resp", RespMenu)
 ChooseJ == Choose("just", JustMenu)
 
 DealJson(b) == [from |-> b.from, c |-> b.c, honest |-> b.from \notin F, poly |-> b.poly, sid |-> b.sid,
-                thr |-> b.thr, unk |-> b.unk, sec |-> b.sec, sh |-> KV(b.sh)]
-RespJson(b) == [from |-> b.from, c |-> b.c, honest |-> b.from \notin F, sid |-> b.sid, unk |-> b.unk, rs |-> KV(b.rs)]
-JustJson(b) == [from |-> b.from, c |-> b.c, honest |-> b.from \notin F, poly |-> b.poly, sid |-> b.sid, unk |-> b.unk, js |-> KV(b.js)]
+                thr |-> b.thr, unk |-> b.unk, sec |-> b.sec, sh |-> KV(b.sh), auth |-> b.auth]
+RespJson(b) == [from |-> b.from, c |-> b.c, honest |-> b.from \notin F, sid |-> b.sid, unk |-> b.unk, rs |-> KV(b.rs), auth |-> b.auth]
+JustJson(b) == [from |-> b.from, c |-> b.c, honest |-> b.from \notin F, poly |-> b.poly, sid |-> b.sid, unk |-> b.unk, js |-> KV(b.js), auth |-> b.auth]
 HSeq == SetSeq(Honest)
 OutJson(o) == IF o.k = "res" THEN [k |-> "res", e |-> "", qual |-> SetSeq(o.qual), used |-> SetSeq(o.used)]
               ELSE IF o.k = "err" THEN [k |-> "err", e |-> o.e, qual |-> <<>>, used |-> <<>>]
